@@ -158,6 +158,11 @@ class C01(Plugin):
         cfg = {"rt": rng.choice(["ct", "ct", "mt"]), "client": client, "server": server, "tr": tr,
                "buf": rng.choice([1, 7, 64, 64, 1024, 1024, 8192]), "pool": rng.choice(["default", "default", "default", "none", "idle1", "nopre"]),
                "api": rng.choice(["client", "service", "service"]), "norig": rng.choice([1, 1, 2, 3]), "settle": rng.choice([0, 5, 30])}
+        if server == "h2" and cfg["buf"] < 64:
+            # the h2 crate's server flushes SETTINGS before reading and its client writes the 24-byte preface before reading:
+            # a transport buffering fewer than 24 bytes deadlocks plain hyper too (environment, not hyperdriver); the sniffing
+            # `auto` server reads first and is exercised with buffers 1 and 7
+            cfg["buf"] = 64
         allow_h2 = server != "h1" and client != "h1"
         only_h1 = server == "h1" or client == "h1" or rng.random() < 0.3
         if only_h1:
@@ -256,7 +261,7 @@ class C01(Plugin):
         byid = {r["id"]: r for r in o["reqs"]}
         ereqs, robs = [], []
         conns = {}       # (srv, conn) -> [cid, proto, next sid]
-        first, last = [], []
+        plan_first, plan_last = [], []     # (request id, connection key or None, cancelled)
         dups = 0
         for r in c["reqs"]:
             ob = byid[r["id"]]
@@ -270,24 +275,36 @@ class C01(Plugin):
                 ver = saw["echo"]["ver"] if saw["echo"] else "11"
                 if key not in conns:
                     conns[key] = [saw["srv"] * 100000 + saw["conn"], "PH2" if ver == "2" else "PH1", 0]
-                k = conns[key]
-                s = k[2]
-                k[2] += 1
-                ev = [f"EStart {r['id']}%N {k[0]}%N", f"EHandle {k[0]}%N {s}%N"]
-                if cancelled:
-                    ev.append(f"ECancel {r['id']}%N")
-                    last.append(ev)
-                else:
-                    ev += [f"EDeliver {k[0]}%N {s}%N", f"ERelease {k[0]}%N"]
-                    first.append(ev)
+                (plan_last if cancelled else plan_first).append((r["id"], key, cancelled))
             elif cancelled:
-                last.append([f"ECancel {r['id']}%N"])
+                plan_last.append((r["id"], None, True))
             out = {"OK": None, "CANCELLED": "ICancelled", "HANG": "IHang"}.get(ob["out"], "IErr")
             if ob["out"] == "OK":
                 rv = ob["recv"]
                 out = f"(IOk (mkResp {rv['status']}%N {coq_headers(rv['headers'])} {coq_wreq(rv['echo'])}))"
             saw_t = "None" if saw is None else f"(Some ({coq_wreq(saw['echo'])}, {'true' if saw['complete'] else 'false'}))"
             robs.append(f"(mkRobs {saw_t} {out} {'true' if cancelled else 'false'})")
+        # canonical sequential schedule over the observed request -> connection assignment; requests the caller cancelled come
+        # last (in the model an abandoned HTTP/1 exchange closes its connection); stream ids are allocated in execution order
+        first, last = [], []
+        virt = 0
+        for rid, key, cancelled in plan_first + plan_last:
+            if key is None:
+                last.append([f"ECancel {rid}%N"])
+                continue
+            k = conns[key]
+            if cancelled and k[1] == "PH1":
+                # hyper may salvage an HTTP/1 connection whose response body was dropped early; the model always closes it:
+                # the abandoned exchange gets a connection entry of its own (same protocol, same server)
+                virt += 1
+                k = conns[(key[0], 50000 + virt)] = [key[0] * 100000 + 50000 + virt, "PH1", 0]
+            s = k[2]
+            k[2] += 1
+            ev = [f"EStart {rid}%N {k[0]}%N", f"EHandle {k[0]}%N {s}%N"]
+            if cancelled:
+                last.append(ev + [f"ECancel {rid}%N"])
+            else:
+                first.append(ev + [f"EDeliver {k[0]}%N {s}%N", f"ERelease {k[0]}%N"])
         conn_t = "[" + "; ".join(f"({v[0]}%N, ({v[1]}, {k[0]}%N))" for k, v in conns.items()) + "]"
         sched = "[" + "; ".join(e for ev in first + last for e in ev) + "]"
         case = f"mkCase (mkCfg {cs(UA)} [{'; '.join(ereqs)}] {conn_t}) {sched}"
